@@ -75,6 +75,10 @@ class Check:
     def extra_evidence(self, merged: Dict[str, Any]) -> Dict[str, Any]:
         return {}
 
+    def shard_epilogue(self, tier: str, shard: int, rng: random.Random) -> Dict[str, int]:
+        """Extra work done once per shard after the case loop; returns counters."""
+        return {}
+
     def post_merge(self, merged: Dict[str, Any]) -> None:
         """May derive further counters from the merged shard results (before floors)."""
 
@@ -148,6 +152,10 @@ def run_shard(check: Check, tier: str, seed: int, shard: int, nshards: int, out:
                     }
     except BaseException as exc:  # noqa: BLE001
         res["errors"].append({"spec": None, "error": "".join(traceback.format_exception(exc))[-3000:]})
+    try:
+        merge_counts(res["counters"], check.shard_epilogue(tier, shard, rng))
+    except BaseException as exc:  # noqa: BLE001
+        res["errors"].append({"spec": "epilogue", "error": "".join(traceback.format_exception(exc))[-3000:]})
     res["sigs"] = sorted(res["sigs"])
     res["events"] = dict(res["events"])
     res["counters"] = dict(res["counters"])
